@@ -144,7 +144,7 @@ def all_inputs(cfg):
 _txn = [0]
 
 
-def tx(cfg, d, bits, url=TXURL):
+def tx(cfg, d, bits, url=TXURL, flow="A"):
     """one transaction: Cond processor k answers hit iff header X-k = 1; a Limiter answers above_limit iff its
     quota group was used once before (a warm-up transaction with the same fresh group value)."""
     _txn[0] += 1
@@ -154,7 +154,7 @@ def tx(cfg, d, bits, url=TXURL):
     for k, b in bits.items():
         if kinds.get(k) == "Cond" and b:
             h["x-" + k] = "1"
-    t = {"id": tid, "dir": d, "method": "GET", "url": url, "headers": h}
+    t = {"id": tid, "dir": d, "method": "GET", "url": url, "headers": h, "flow": flow, "bits": bits}
     if d == "res":
         t["status"] = 200
     lims = [k for k, kind in kinds.items() if kind == "Lim"]
@@ -167,3 +167,118 @@ def tx(cfg, d, bits, url=TXURL):
 
 def b64(b):
     return base64.b64encode(b).decode()
+
+
+# ------------------------------------------------------------------ cases
+
+def limit_of(cfg):
+    """executor safety limit on processor executions per transaction (well above the specification's Bound)"""
+    n = sum(len(fl["procs"]) for fl in cfg["flows"])
+    return 2 ** (n + 1) + 2 * len(cfg.get("quotas", [])) + 64
+
+
+def standard_txs(cfg, max_inputs=16):
+    """every branch-steering input vector, request and response, for every user flow of the configuration"""
+    txs = []
+    ins = all_inputs(cfg)[:max_inputs]
+    for fl in cfg["flows"]:
+        if not fl.get("url"):
+            continue
+        for bits in ins:
+            for d in ("req", "res"):
+                txs.append(tx(cfg, d, bits, url=fl["url"], flow=fl["name"]))
+    return txs
+
+
+def make_case(cid, cfg, txs=None):
+    return {"id": cid, "cfg": cfg, "files": render(cfg), "txs": standard_txs(cfg) if txs is None else txs,
+            "limit": limit_of(cfg)}
+
+
+DIRS = {"StreamTypeRequest": "req", "StreamTypeResponse": "res"}
+
+
+def run_cases(ctx, binary, cases, tag, natural=False, timeout=1500):
+    """executes the cases on the real code; returns the events (begin markers removed)"""
+    import os
+    from vlib import read_ndjson
+    d = ctx.sub("run-" + tag)
+    cp, op = os.path.join(d, "cases.json"), os.path.join(d, "out.ndjson")
+    slim = [{"id": c["id"], "files": c["files"], "limit": c["limit"],
+             "txs": [{k: v for k, v in t.items() if k not in ("flow", "bits", "kind")} for t in c["txs"]]} for c in cases]
+    json.dump(slim, open(cp, "w"))
+    ctx.run_harness(binary, ["run", cp, op] + (["natural"] if natural else []), timeout=timeout)
+    evs = [e for e in read_ndjson(op) if e["ev"] != "begin"]
+    for e in evs:
+        for s in e.get("seq", []):
+            s["dir"] = DIRS.get(s["dir"], s["dir"])
+    os.remove(cp)
+    return evs
+
+
+def build_trace(cases, events):
+    """the TLC trace: per case one load event carrying the configuration, then its exec events.
+    Returns (lines, refs) with refs[i] = (case, tx or None, raw event) for line i."""
+    by_case = {}
+    for e in events:
+        by_case.setdefault(e["case"], []).append(e)
+    lines, refs = [], []
+    for c in cases:
+        evs = by_case.get(c["id"], [])
+        loads = [e for e in evs if e["ev"] == "load"]
+        if len(loads) != 1:
+            raise RuntimeError("case %s: %d load events" % (c["id"], len(loads)))
+        ld = loads[0]
+        lines.append({"ev": "load", "id": c["id"], "cfg": c["cfg"], "outcome": ld["outcome"], "init": ld["init"]})
+        refs.append((c, None, ld))
+        txs = {t["id"]: t for t in c["txs"]}
+        for e in evs:
+            if e["ev"] != "exec":
+                continue
+            t = txs[e["tx"]]
+            lines.append({"ev": "exec", "id": c["id"] + "/" + e["tx"], "flow": t.get("flow", "A"), "dir": t["dir"], "seq": e["seq"],
+                          "outcome": e["outcome"], "steps": e["steps"] if e["steps"] >= 0 else 10 ** 6})
+            refs.append((c, t, e))
+    return lines, refs
+
+
+def judge(ctx, lines, mode, tag, chunk=3000, par=6, timeout=900):
+    """TLC evaluates the specification on every event; returns [(line index, reason)] for the rejected ones.
+    Chunks are cut at configuration boundaries (an exec event is judged against the preceding load event)."""
+    import os, re, shutil
+    from vlib import Broken, write_ndjson, parallel
+    if not lines:
+        return []
+    sd = ctx.spec_dir(SPEC)
+    chunks, cur, off = [], [], 0
+    for i, ln in enumerate(lines):
+        if ln["ev"] == "load" and len(cur) >= chunk:
+            chunks.append((off, cur))
+            cur, off = [], i
+        cur.append(ln)
+    chunks.append((off, cur))
+
+    def one(it):
+        off, evs = it
+        wd = os.path.join(ctx.scratch, "fj-%s-%s-%d" % (mode, tag, off))
+        if os.path.isdir(wd):
+            shutil.rmtree(wd)
+        shutil.copytree(sd, wd)
+        p = os.path.join(wd, "trace.ndjson")
+        write_ndjson(p, evs)
+        ok, hwm, r = ctx.tlc_trace(wd, "FlowTrace", p, cfg="FlowTrace_%s.cfg" % mode, timeout=timeout)
+        if r.violated or r.error or hwm != len(evs):
+            raise Broken("trace validation FlowTrace/%s (%s, offset %d) did not consume the trace: hwm=%d of %d %r\n%s" % (
+                mode, tag, off, hwm, len(evs), r, r.out[-2500:]))
+        rej = [(int(m.group(1)) - 1 + off, m.group(2))
+               for m in re.finditer(r'<<\s*"REJECT",\s*(\d+),\s*"[^"]*",\s*"([^"]*)"\s*>>', r.out)]
+        shutil.rmtree(wd, ignore_errors=True)
+        return rej
+
+    out = []
+    for r in parallel(one, chunks, n=par):
+        out += r
+    return sorted(set(out))
+
+
+SPEC = "c04_flow_graph"
